@@ -2,7 +2,7 @@
    Only statements (pinned), non-vacuity examples, the refutation witness for the known
    deviation F3 and Print Assumptions. Model: Factory/Model.v; proofs: Factory/Route.v. *)
 From Coq Require Import List NArith Bool.
-From RV Require Import Factory.Model Factory.Scenario Factory.Oracle Factory.Route Factory.RoutePool.
+From RV Require Import Factory.Model Factory.Scenario Factory.Oracle Factory.Route Factory.RoutePool Factory.RouteUniq.
 Import ListNotations.
 Local Open Scope N_scope.
 
@@ -63,6 +63,17 @@ Proof. exact queuer_none_no_idle_listed. Qed.
 Theorem C14_one_at_a_time : forall c n d rls ls wid p,
   lookup wid (pool (run c (init c n d rls) ls)) = Some p -> (length (w_curr p) <= 1)%nat.
 Proof. exact one_at_a_time_factory_side. Qed.
+
+(* (5) factory-side affinity of key-persistent routing, for EVERY history (stale completions
+   included): a key is pending (queued or believed running) at no more than one worker. It is an
+   instance of the generic pool-relation invariant theorem RouteUniq.pool_relation_invariant.
+   (F3 breaks affinity between this bookkeeping and what the workers really hold, not inside it.) *)
+Theorem C14_key_persistent_one_owner : forall c n d rls ls k w1 w2 p1 p2,
+  c_router c = RKeyPersistent ->
+  let pl := pool (run c (init c n d rls) ls) in
+  lookup w1 pl = Some p1 -> lookup w2 pl = Some p2 ->
+  has_pending p1 k = true -> has_pending p2 k = true -> w1 = w2.
+Proof. exact kp_one_owner. Qed.
 
 (* actor side: a worker actor whose handler is busy does not take another job *)
 Theorem C14_actor_busy_takes_nothing : forall a w x,
@@ -163,3 +174,4 @@ Print Assumptions C14_queuer_target_idle.
 Print Assumptions C14_queuer_no_idle_backlog_partial.
 Print Assumptions C14_one_at_a_time.
 Print Assumptions C14_actor_busy_takes_nothing.
+Print Assumptions C14_key_persistent_one_owner.
